@@ -40,6 +40,19 @@ def keep_pos(xs):
             out.append(x)
     return out
 
+def keep_pos_alias(xs):
+    out = []
+    add = out.append
+    for x in xs:
+        if x.bounds.lower > 0:
+            add(x)
+    return out
+
+def call_stmt(xs, log):
+    for x in xs:
+        log(x)
+    return 0
+
 def keep_pos_comp(xs):
     return [x for x in xs if x.bounds.lower > 0]
 
@@ -122,6 +135,8 @@ def main():
             if self.fn == "prefix":
                 v = types.SimpleNamespace(id=SId(z3.Int("some.id")))
                 return mod.prefix(v)
+            if self.fn == "call_stmt":
+                return mod.call_stmt(st["xs"], lambda x: None)
             return getattr(mod, self.fn)(st["xs"])
 
         def ensures(self, c, st, res):
@@ -136,6 +151,9 @@ def main():
         ("count_pos", lambda xs, r: r == seq_sum(xs, lambda x: lift(z3.If(pos(x).t, 1, 0))), "PROVED"),
         ("keep_pos", lambda xs, r: seq_len(r) == seq_sum(xs, lambda x: lift(z3.If(pos(x).t, 1, 0))), "PROVED"),
         ("keep_pos", lambda xs, r: seq_len(r) == seq_len(xs), "REFUTED"),
+        ("keep_pos_alias", lambda xs, r: seq_len(r) == seq_sum(xs, lambda x: lift(z3.If(pos(x).t, 1, 0))), "PROVED"),
+        ("keep_pos_alias", lambda xs, r: seq_len(r) == seq_len(xs), "REFUTED"),
+        ("call_stmt", lambda xs, r: r == 0, "UNSUPPORTED"),       # an arbitrary call statement per element: refused
         ("keep_pos_comp", lambda xs, r: seq_sum(r, lo) == seq_sum(xs, lambda x: lift(z3.If(pos(x).t, lo(x).t, 0))), "PROVED"),
         ("all_pos", lambda xs, r: lift(r) == seq_all(xs, pos) if not isinstance(r, bool) else (r == True) == seq_all(xs, pos), "PROVED"),
         ("all_pos_wrong", lambda xs, r: (r == True) == seq_all(xs, pos), "REFUTED"),
